@@ -94,6 +94,7 @@ class IsoGen:
         self.pairs = {n: k for n, k in params if k in ('P', 'Q')}
         self.shape = shape
         self.param_lists = [n for n, k in params if k == 'L']           # names that ARE parameter lists (or aliases of parts)
+        self.tlists = {}        # lists of pairs made by zip / enumerate: name -> length lower bound
         out = []
         ind = '    '
         # expose nested lists as ordinary list variables (aliases of argument structure)
@@ -137,7 +138,9 @@ class IsoGen:
 
     def stmt(self, ind, out):
         ch, g, fn = self.ch, self.g, self.fn
-        opts = [(10, 'gen'), (6, 'store'), (3, 'loopstore'), (3, 'alias')]
+        opts = [(10, 'gen'), (6, 'store'), (3, 'loopstore'), (3, 'alias'), (6, 'fresh'), (3, 'freshT')]
+        if any(lb > 0 for lb in self.tlists.values()):
+            opts += [(5, 'storeT')]
         if self.rows:
             opts += [(6, 'store2'), (3, 'rowset'), (3, 'exposerow')]
         if self.pairs:
@@ -186,6 +189,62 @@ class IsoGen:
                 fn.len_lb[v] = lb - lo
                 self.features.add('slice')
             fn.env[v] = 'L'
+        elif k == 'fresh':
+            # a list the evaluation itself creates (range / constant literal / comprehension / slice), bound to a name:
+            # later stores and returns act on an object that must be fresh on every evaluation
+            v = fn.fresh('fs')
+            form = ch.weighted([(5, 'range1'), (3, 'range2'), (2, 'range3'), (3, 'literal'), (2, 'comp'), (2, 'slice')])
+            ls = g.vars_of(fn, 'L')
+            if form == 'slice' and not ls:
+                form = 'range1'
+            if form == 'range1':
+                n = ch.int(1, 4)
+                out.append(f'{ind}{v} = range({n})')
+                lb = n
+            elif form == 'range2':
+                lo = ch.int(0, 2)
+                n = ch.int(1, 4)
+                out.append(f'{ind}{v} = range({lo}, {lo + n})')
+                lb = n
+            elif form == 'range3':
+                n = ch.int(1, 3)
+                out.append(f'{ind}{v} = range({2 * n}, 0, -2)')
+                lb = n
+            elif form == 'literal':
+                n = ch.int(1, 4)
+                out.append(f'{ind}{v} = [' + ', '.join(ch.choice(['0', '1', '2', '3', '0.5', '1.5', '7', '0.1', '0.3']) for _ in range(n)) + ']')
+                lb = n
+            elif form == 'comp':
+                n = ch.int(1, 4)
+                e = fn.fresh('e')
+                out.append(f'{ind}{v} = [{e} for {e} in range({n})]')
+                lb = n
+            else:
+                l = ch.choice(ls)
+                b = fn.len_lb.get(l, 0)
+                lo = ch.int(0, b)
+                out.append(f'{ind}{v} = {l}[{lo}:{b}]')
+                lb = b - lo
+            fn.env[v] = 'L'
+            fn.len_lb[v] = lb
+            self.features.add('fresh-container:' + form)
+        elif k == 'freshT':
+            ls = g.vars_of(fn, 'L')
+            v = fn.fresh('zs')
+            if ls and ch.bool(0.7):
+                l = ch.choice(ls)
+                out.append(f'{ind}{v} = ' + (f'zip({l}, {l})' if ch.bool() else f'enumerate({l})'))
+                self.tlists[v] = fn.len_lb.get(l, 0)
+            else:
+                n = ch.int(1, 3)
+                out.append(f'{ind}{v} = ' + (f'zip(range({n}), range({n}))' if ch.bool() else f'enumerate(range({n}))'))
+                self.tlists[v] = n
+            self.features.add('fresh-container:pairs')
+        elif k == 'storeT':
+            cands = sorted(n for n, lb in self.tlists.items() if lb > 0)
+            v = ch.choice(cands)
+            out.append(f'{ind}{v}[{ch.int(0, self.tlists[v] - 1)}] = ({g.expr_R(fn, 1)}, {g.expr_R(fn, 1)})')
+            self.features.add('pair-list-store')
         elif k == 'store2':
             n = ch.choice(sorted(self.rows))
             r, c = self.rows[n]
@@ -210,7 +269,9 @@ class IsoGen:
     def ret_component(self):
         ch, g, fn = self.ch, self.g, self.fn
         ls = g.vars_of(fn, 'L')
-        opts = [(3, 'real')]
+        opts = [(3, 'real'), (2, 'range-sum'), (2, 'range-list')]
+        if self.tlists:
+            opts += [(8, 'pairs')]
         if ls:
             opts += [(6, 'list'), (3, 'slice'), (4, 'twice-tuple'), (3, 'twice-list'), (2, 'comp')]
         if self.rows:
@@ -220,6 +281,17 @@ class IsoGen:
         k = ch.weighted(opts)
         if k == 'real':
             return g.expr_R(fn, 2)
+        if k == 'range-sum':
+            # observes what an equal `range` evaluates to NOW
+            e = fn.fresh('e')
+            return f'sum([{e} for {e} in range({ch.int(1, 4)})])'
+        if k == 'range-list':
+            self.features.add('returns-range')
+            lo = ch.int(0, 2)
+            return ch.choice([f'range({ch.int(1, 4)})', f'range({lo}, {lo + ch.int(1, 4)})', f'range({2 * ch.int(1, 3)}, 0, -2)'])
+        if k == 'pairs':
+            self.features.add('returns-pair-list')
+            return ch.choice(sorted(self.tlists))
         if k == 'list':
             self.features.add('returns-list-var')
             return ch.choice(ls)
